@@ -30,8 +30,8 @@ use crate::app::{Timeout, Timestamp};
 use crate::link::header::{FrameInfo, FrameType};
 use crate::link::reader::LinkModes;
 use crate::link::EndpointAddress;
-use crate::master::AssociationConfig;
 use crate::master::task::MasterTask;
+use crate::master::AssociationConfig;
 use crate::master::{
     AssociationHandle, AssociationHandler, AssociationInformation, MasterChannel,
     MasterChannelConfig, MasterChannelType, ReadHandler, TaskError, TimeSyncError,
@@ -72,7 +72,9 @@ struct Shared {
 
 impl Shared {
     fn now_ms(&self) -> u64 {
-        Instant::now().saturating_duration_since(self.base).as_millis() as u64
+        Instant::now()
+            .saturating_duration_since(self.base)
+            .as_millis() as u64
     }
     fn clock(&self) -> Option<u64> {
         if !self.clock_on {
